@@ -13,6 +13,7 @@ package main
 import (
 	"errors"
 	"io"
+	"runtime"
 	"sync"
 	"time"
 
@@ -209,6 +210,9 @@ func impl(in hv.Val) hv.Val {
 	} else {
 		r.p = pipe.NewPipeWithSize(uint32(capacity))
 	}
+	if mode&4 != 0 && capacity >= 1 {
+		return transfer(r.p, capacity, ops)
+	}
 	out := make(hv.L, 0, len(ops))
 	for k := 0; k < len(ops); k++ {
 		o := ops[k]
@@ -249,6 +253,57 @@ func impl(in hv.Val) hv.Val {
 		out = append(out, r.do(o))
 	}
 	return out
+}
+
+// transfer: a writer goroutine pushes the data of all Write ops through the pipe (retrying what was not
+// accepted) and closes with io.EOF; the calling goroutine reads with really blocking Reads until it gets
+// an error.  The result does not depend on the schedule; a deadlock hits the per-case deadline.
+func transfer(p *pipe.Pipe, capacity int, ops []op) hv.Val {
+	var chunks [][]byte
+	var sizes []int
+	for _, o := range ops {
+		switch o.tag {
+		case 1:
+			chunks = append(chunks, append([]byte(nil), o.d...))
+		case 2:
+			if o.n > 0 {
+				sizes = append(sizes, o.n)
+			}
+		}
+	}
+	if len(sizes) == 0 {
+		sizes = []int{capacity + 1}
+	}
+	go func() {
+		for _, d := range chunks {
+			rest := d
+			for len(rest) > 0 {
+				n, _ := p.Write(rest)
+				if n < 0 || n > len(rest) {
+					return
+				}
+				rest = rest[n:]
+				if len(rest) > 0 {
+					runtime.Gosched()
+				}
+			}
+		}
+		p.CloseWithError(io.EOF)
+	}()
+	var got []byte
+	for j := 0; ; j++ {
+		buf := make([]byte, sizes[j%len(sizes)])
+		n, err := p.Read(buf)
+		if n > 0 && n <= len(buf) {
+			got = append(got, buf[:n]...)
+		}
+		if err != nil {
+			return hv.L{hv.L{hv.I(2), hv.I(len(got)), hv.B(got), hv.I(errCode(err)), hv.I(0)}}
+		}
+		if len(got) > 1<<20 {
+			return hv.L{hv.L{hv.I(2), hv.I(len(got)), hv.B(nil), hv.I(998), hv.I(0)}}
+		}
+	}
 }
 
 // ---------- generators ----------
@@ -468,6 +523,25 @@ func gen(r *hv.Rng, i int, tier string) (string, hv.Val) {
 	if r.Chance(1, 3) {
 		mode = 2
 	}
+	if i%10 == 3 {
+		// concurrent transfer: writer goroutine vs really blocking reader
+		for j := rg(r, 0, 12); j > 0; j-- {
+			if r.Chance(1, 6) {
+				b.writeN(0)
+			} else if r.Chance(1, 3) {
+				b.writeN(b.s.capacity + rg(r, 0, 20)) // larger than the buffer: needs several rounds
+			} else {
+				b.writeN(rg(r, 1, b.s.capacity+1))
+			}
+		}
+		for j := rg(r, 0, 4); j > 0; j-- {
+			b.readN([]int{1, 2, b.s.capacity, b.s.capacity + 1, rg(r, 1, b.s.capacity+3)}[r.Intn(5)])
+		}
+		if b.s.capacity < 1 {
+			b.s.capacity = 1
+		}
+		return "concurrent", b.val(mode | 4)
+	}
 	if i%40 == 7 {
 		// blocked-real: ... Read n (blocks) ; X ; Read n, first read executed for real
 		b.data(rg(r, 0, 12))
@@ -656,5 +730,5 @@ func gen(r *hv.Rng, i int, tier string) (string, hv.Val) {
 }
 
 func main() {
-	hv.Main(&hv.Spec{Prop: "C21", Gen: gen, Impl: impl, NQuick: 6000, NThorough: 300000, Deadline: 10 * time.Second})
+	hv.Main(&hv.Spec{Prop: "C21", Gen: gen, Impl: impl, NQuick: 6000, NThorough: 200000, Deadline: 6 * time.Second})
 }
